@@ -115,7 +115,28 @@ def run_vdrv(exe, conf, scenarios, work, tag="run", jobs=16, timeout=8, env=None
                     cur["end"] = ev
                 elif cur is not None:
                     cur["events"].append(ev)
+    for ch in chunks:            # which scenarios ran before it in the same harness process (see confirmed_in_position)
+        ids = [str(sid) for sid, _ in ch]
+        for k, sid in enumerate(ids):
+            if sid in res:
+                res[sid]["before"] = ids[:k]
     return [res[str(sid)] for sid, _ in scenarios if str(sid) in res]
+
+
+def confirmed_in_position(exe, conf, sdict, ex, work, env=None, timeout=8):
+    """A sanitizer report that does not repeat when its scenario runs alone may depend on the heap layout the
+    harness process had when it forked the scenario (a wild read or write only shows where it lands): run the
+    scenario once more behind the scenarios that preceded it in its original process.  Returns the repeated
+    execution or None."""
+    before = ex.get("before") or []
+    if not before or not any(s.get("kind") not in ("signal", "exit") for s in crashed(ex)):
+        return None
+    ids = [i for i in before if i in sdict] + [ex["id"]]
+    again = run_vdrv(exe, conf, [(i, sdict[i]) for i in ids], work, tag="confirm-pos", jobs=1, env=env, timeout=timeout)
+    for a in again:
+        if a["id"] == ex["id"] and crashed(a):
+            return a
+    return None
 
 
 def crashed(ex):
@@ -142,10 +163,14 @@ def confirmed_crashes(exe, conf, scen, exs, work, env=None, limit=12):
         again = run_vdrv(exe, conf, [(ex["id"], sdict[ex["id"]])], work, tag="confirm", jobs=1, env=env)
         if again and crashed(again[0]):
             out.append((again[0], crashed(again[0]), (again[0]["end"] or {}).get("raw")))
+            continue
+        pos = confirmed_in_position(exe, conf, sdict, ex, work, env=env)
+        if pos:
+            out.append((pos, crashed(pos), (pos["end"] or {}).get("raw")))
         else:
             flaky += 1
     if flaky:
-        print("NOTE %d process-level failure(s) did not repeat when the scenario was run again alone; not reported" % flaky)
+        print("NOTE %d process-level failure(s) repeated neither when the scenario was run again alone nor in its original position; not reported" % flaky)
     if len(cand) > limit:
         print("NOTE %d further failing scenarios not re-run" % (len(cand) - limit))
     return out
